@@ -78,3 +78,15 @@ add("C04", "metamorphic testing: Hypothesis insertion plans over token-safe boun
     "shifted by exactly the lines inserted above. Thorough tries every safe boundary x every style of every corpus file, and strips all trivia "
     "from generated programs. One open known finding (Pygments C/C++ function rule) is withheld by construction and pinned by replays.",
     "token-safety relies on Pygments' tokenisation of the base text; comment edits inside C/C++ declaration headers are excluded (known finding)")
+
+add("C03", "fuzzing with structured mutation, token soups, cut points, depth templates and byte noise through four entry points; crash / hang oracle with a watchdog",
+    "4179 (thorough ~58000) inputs per run: every header cut at the end of input, nesting 1..3000 deep, long flat files, Hypothesis "
+    "mutations of canonical programs and corpus files, token soups and raw byte noise go through scan_file, scan_path + ReportWriter + "
+    "json.loads, check_command under seven ways of naming the file (incl. from a sibling directory) and, for a sample, a real "
+    "`python -m codelimit` process. Any escaping exception, non-0/1 exit status or watchdog expiry is a violation.",
+    "watchdog 60 s per case (400 s for templates deeper than 1000); option-free command lines only in the subprocess sample")
+add("C05", "fuzzing (same malformed-input generators as C03) with an invariant oracle computed from an independent Pygments tokenisation",
+    "5600 (thorough ~60000) valid and malformed inputs per run; every measurement the analysis returns is checked for line / column "
+    "bounds, start at a code token, end just past a code token, name = an identifier token inside the span, 1 <= length <= "
+    "code-bearing lines of the span, source order, distinct starts, and loc = sum of lengths at scan_path.",
+    "trusts Pygments' raw token stream for 'code token' and 'identifier token'; inputs on which the analysis raises are left to C03")
